@@ -9,4 +9,7 @@ pub mod verif_wrap {
     pub fn v_copy_atomic(src: &Path, dst: &Path) -> std::io::Result<()> {
         copy_atomic(src, dst)
     }
+    pub fn v_short_hex(h: &[u8; 32]) -> String {
+        short_hex(h)
+    }
 }
